@@ -388,3 +388,47 @@ Proof.
   split; [intros x; apply stale_rejected; exact Hrel|].
   destruct Hrel as (_ & HO & HU & _). rewrite HO, HU. split; congruence.
 Qed.
+
+(* ---- a wrong password - one whose prepared form differs from those of the current passwords - is refused by every
+   operation.  "Wrong" is stated through the preparation (rprep x <> rprep c): whether two spellings (letter case,
+   width, normalisation form) are the same password is decided by prep alone, which is outside this model. ---- *)
+Lemma wrong_password_refused prep h e c x :
+  run prep Plain h = Encrypted e -> cur prep None Plain h = Some c ->
+  x <> [] ->
+  rprep prep (cR c) x <> rprep prep (cR c) (cO c) ->
+  rprep prep (cR c) x <> rprep prep (cR c) (cU c) ->
+  rprep prep (cR c) [] <> rprep prep (cR c) (cU c) ->
+  (* opening and decrypting with x in either slot *)
+  opens prep e x [] = false /\ opens prep e [] x = false
+  /\ (exists err, step prep (Encrypted e) (OpDecrypt x []) = (RErr err, Encrypted e))
+  /\ (exists err, step prep (Encrypted e) (OpDecrypt [] x) = (RErr err, Encrypted e))
+  (* every change with x as the owner credential, whatever the other slot holds *)
+  /\ (forall o, is_change o = true -> fst (slots o) = x ->
+        exists err, step prep (Encrypted e) o = (RErr err, Encrypted e))
+  (* every change with the owner slot right and x as the user credential *)
+  /\ (forall o, is_change o = true -> snd (slots o) = x -> fst (slots o) <> [] ->
+        exists err, step prep (Encrypted e) o = (RErr err, Encrypted e)).
+Proof.
+  intros Hrun Hcur Hne HnO HnU HnE.
+  pose proof (history_rel prep h Plain None I) as Hrel. rewrite Hrun, Hcur in Hrel.
+  assert (HnO' : ~ accepts prep (cR c) (cO c) x) by (unfold accepts; exact HnO).
+  assert (HnU' : ~ accepts prep (cR c) (cU c) x) by (unfold accepts; exact HnU).
+  assert (HnE' : ~ accepts prep (cR c) (cU c) []) by (unfold accepts; exact HnE).
+  destruct (stale_rejected prep e c x Hrel HnO' HnU') as [Hu Ho]. specialize (Ho HnE').
+  split; [exact Ho|]. split; [exact Hu|].
+  split; [cbn; unfold opens in Ho; rewrite Ho; eexists; reflexivity|].
+  split; [cbn; unfold opens in Hu; rewrite Hu; eexists; reflexivity|].
+  pose proof Hrel as (HR & HO & HU & _).
+  split.
+  - intros o Hc Hs.
+    destruct (change_without_owner_refused prep (Encrypted e) o e Hc eq_refl) as [err [Hst _]]; [|eexists; exact Hst].
+    rewrite Hs. intros Hv. apply validate_owner_ok in Hv. unfold owner_ok in Hv. rewrite HR in Hv.
+    destruct (aes256 (cR c)).
+    + destruct Hv as [_ Hv]. congruence.
+    + rewrite eff_owner_nonempty in Hv by exact Hne. congruence.
+  - intros o Hc Hs Hos.
+    destruct (step prep (Encrypted e) o) as [r d'] eqn:E. destruct r as [|err].
+    + destruct (change_requires_owner prep _ _ _ Hc E) as [e' [He [_ Hv]]]. inversion He; subst e'.
+      rewrite Hs in Hv. apply validate_user_ok in Hv. rewrite HR in Hv. congruence.
+    + apply step_err_unchanged in E as E'. subst d'. eexists; reflexivity.
+Qed.
